@@ -1,9 +1,21 @@
 package rules
 
+// seq runs several rule groups under one property. Sub-rules borrowed from a
+// sibling property keep their own rule prefix in obligation keys (e.g. a
+// C12.* obligation evaluated under C01): the property statements overlap
+// there ("unconsumed one-time password" in C01 is C12's consumption rule).
+func seq(fs ...func(*Ctx)) func(*Ctx) {
+	return func(c *Ctx) {
+		for _, f := range fs {
+			f(c)
+		}
+	}
+}
+
 // All maps property ids to their rule sets.
 var All = map[string]func(*Ctx){
-	"C01": C01,
-	"C02": C02,
+	"C01": seq(C01, (*Ctx).c12OTP, (*Ctx).c12Recovery),
+	"C02": seq(C02, (*Ctx).c12Recovery, (*Ctx).c12SMS),
 	"C03": C03,
 	"C04": C04,
 	"C05": C05,
@@ -13,4 +25,5 @@ var All = map[string]func(*Ctx){
 	"C09": C09,
 	"C10": C10,
 	"C11": C11,
+	"C12": C12,
 }
